@@ -234,6 +234,56 @@ def implied_vol_mixed_batches(ctx: Ctx) -> None:
                               {"log_moneyness": lms, "time_to_maturity": ts, "precision": precision, "volatility": vols.tolist(), "implied": iv.tolist()})
 
 
+def implied_vol_unreachable_precision(ctx: Ctx) -> None:
+    """A precision that cannot be reached in the dtype of the prices (float32 prices, precision 1e-9 or 0): the search has to STOP -
+    with an error, or with a value if it happens to land exactly - and must not go on for ever.  (Bisect.tla: the abort branch is
+    always reachable, Terminates.)  Judged under a watchdog in the main thread."""
+    import signal
+    from pfhedge.nn import BSAmericanBinaryOption, BSEuropeanOption, BSLookbackOption
+
+    class Watchdog(Exception):
+        pass
+
+    def on_alarm(signum, frame):
+        raise Watchdog()
+    cases = [(BSEuropeanOption(), {}), (BSEuropeanOption(call=False, strike=1.1), {}), (BSLookbackOption(), {"max_log_moneyness": True}), (BSAmericanBinaryOption(), {"max_log_moneyness": True})]
+    old = signal.signal(signal.SIGALRM, on_alarm)
+    try:
+        for m, extra in cases:
+            for dtype, precision in ((torch.float32, 1e-9), (torch.float32, 0.0), (torch.float64, 0.0)):
+                lm = torch.tensor([-0.1, -0.02], dtype=dtype)
+                kw = {"log_moneyness": lm, "time_to_maturity": torch.full_like(lm, 0.5)}
+                if extra:
+                    kw["max_log_moneyness"] = lm.clone()
+                price = m.price(volatility=torch.tensor([0.2, 0.3], dtype=dtype), **kw)
+                detail = {"module": type(m).__name__, "dtype": str(dtype), "precision": precision}
+                signal.setitimer(signal.ITIMER_REAL, 20.0)
+                try:
+                    iv = m.implied_volatility(price=price, precision=precision, **kw)
+                    outcome = "value"
+                except Watchdog:
+                    outcome = "watchdog"
+                except RuntimeError:
+                    outcome = "error"
+                except Exception as e:
+                    outcome = f"raised {type(e).__name__}"
+                finally:
+                    signal.setitimer(signal.ITIMER_REAL, 0.0)
+                ctx.count(("iv-unreachable", type(m).__name__, str(dtype), precision), n=1)
+                if outcome == "watchdog":
+                    ctx.violation("iv:unreachable-precision:does-not-stop", "implied_volatility with a precision the dtype cannot resolve was still searching after 20 s "
+                                  "(it has to stop with an error when it cannot converge)", detail)
+                    return
+                elif outcome == "value":
+                    if not bool(((iv - torch.tensor([0.2, 0.3], dtype=dtype)).abs() <= 1e-3).all()):
+                        ctx.violation("iv:unreachable-precision:value", "implied_volatility returned without an error for an unreachable precision, and not near the generating volatility",
+                                      {**detail, "implied": iv.tolist()})
+                elif outcome != "error":
+                    ctx.violation("iv:unreachable-precision:raises", f"implied_volatility {outcome} for an unreachable precision (the documented outcome is RuntimeError)", detail)
+    finally:
+        signal.signal(signal.SIGALRM, old)
+
+
 def check(ctx: Ctx) -> None:
     from pfhedge._utils.bisect import bisect
     with ThreadPoolExecutor(max_workers=4) as ex:
@@ -267,6 +317,7 @@ def check(ctx: Ctx) -> None:
     continuous_cases(ctx, bisect)
     implied_vol(ctx)
     implied_vol_mixed_batches(ctx)
+    implied_vol_unreachable_precision(ctx)
     ctx.traces_validated = n
     ctx.exhaustive = True
     ctx.rule = ("every terminal behaviour of Bisect.tla (all monotone tables on 9 grid points with values 0..3, all targets, precisions 0/1/2/4 units, "
